@@ -40,6 +40,11 @@ pub fn run(ctx: &mut Ctx) {
             let mut r = Rng::for_case(seed, "c17", idx);
             let n = 1 + r.below(14);
             let mut sels: Vec<String> = (0..n).map(|_| gen_selector(&mut r)).collect();
+            // refinements: a selector that textually extends another one in the list
+            for _ in 0..r.below(4) {
+                let base = r.pick(&sels).clone();
+                sels.push(format!("{}{}", base, r.ps(&[" > img", " .y", " + p", " ~ b", "-wide", ".z", " div", ">i"])));
+            }
             let mut lines: Vec<String> = sels
                 .iter()
                 .map(|s| if r.chance(1, 6) { format!("~example.com##{}", s) } else { format!("##{}", s) })
